@@ -6,7 +6,10 @@ use nsmc::layouts::{all_layouts, Host, Host1, Layout};
 use nsmc::patterns::sequences;
 use nsmc::*;
 
-const ALPHA: [f64; 7] = [0.0, 0.1, 0.25, 0.5, 1.0, 2.0, f64::NAN];
+/// the last two: a negative zero (still a zero entry) and a subnormal (1e-310; 1e-40 for f32): quotients and
+/// logarithms next to the bottom of the exponent range
+const ALPHA: [f64; 9] = [0.0, 0.1, 0.25, 0.5, 1.0, 2.0, f64::NAN, -0.0, 1e-310];
+const NALPHA: usize = 9;
 
 #[derive(Debug, Clone, Copy, PartialEq)]
 enum Kind {
@@ -37,7 +40,9 @@ fn expect<T: Fl>(kind: Kind, p: &[T], q: &[T]) -> Expect {
             match kind {
                 Kind::Entropy => pi * pi.ln(),
                 Kind::Cross => pi * qi.ln(),
-                Kind::Kl => pi * (qi / pi).ln(),
+                // the quotient is formed in the element type (it can overflow or go subnormal there), as in
+                // the documented formula; the logarithm and the product are then taken of that value
+                Kind::Kl => pi * (q[i] / p[i]).to_f64_().ln(),
             }
         };
         if t.is_finite() && pi != 0.0 {
@@ -103,7 +108,7 @@ fn q_candidates(c: &Case) -> Vec<Vec<u8>> {
     if c.normalised {
         return compositions(8, n);
     }
-    let all: Vec<Vec<u8>> = sequences(n, 7).collect();
+    let all: Vec<Vec<u8>> = sequences(n, NALPHA).collect();
     if n <= 3 {
         all
     } else {
@@ -138,6 +143,8 @@ fn compositions(total: u8, n: usize) -> Vec<Vec<u8>> {
 fn val<T: Fl>(d: u8, normalised: bool) -> T {
     if normalised {
         T::of(d as f64 / 8.0)
+    } else if d == 8 && T::NAME == "f32" {
+        T::of(1e-40)
     } else {
         T::of(ALPHA[d as usize])
     }
@@ -350,12 +357,12 @@ fn run_extra<T: Fl>(c: &XCase, lx: &mut Local) {
 
 fn main() {
     let mut rep = Report::new("C10");
-    rep.rule = "case = (p over the alphabet {0,.1,.25,.5,1,2,NaN} or normalised vector in eighths, element type) with q candidates x stride pairs inside; n-D: (shape, layout of p, layout of q, fill); non-trivial = length >= 2".into();
+    rep.rule = "case = (p over the alphabet {0,.1,.25,.5,1,2,NaN,-0.0,subnormal} or normalised vector in eighths, element type) with q candidates x stride pairs inside; n-D: (shape, layout of p, layout of q, fill); non-trivial = length >= 2".into();
     rep.assume("the reference evaluates each term (x ln x, p ln q, p ln(q/p); exactly 0 when x resp. p is 0) in f64 and sums the terms exactly; tolerance 4(n+4)u*sum|t_i| plus a per-term slack 4u|p_i|(|ln p_i|+|ln q_i|+1) so that algebraically equal rewrites (ln q - ln p) do not alarm");
     let nmax = rep.cfg.pick(5, 5);
     let mut cases: Vec<Case> = Vec::new();
     for n in 1..=nmax {
-        for p in sequences(n, 7) {
+        for p in sequences(n, NALPHA) {
             for ty in 0..2u8 {
                 if n >= 5 && (p.iter().map(|&d| d as usize).sum::<usize>() + ty as usize) % 2 == 1 {
                     continue;
@@ -373,7 +380,7 @@ fn main() {
     }
     rep.run_sub(
         "alphabet-and-normalised-1d",
-        &format!("every p of length 1..={} over {{0,.1,.25,.5,1,2,NaN}} x f64/f32 (length 5: each p in one of the two types) with every q of the same length for n<=3 and 24 resp. 12 rotating q plus q=p above; every pair of normalised vectors with entries in eighths for n<=4; stride pairs rotating over {:?}; entropy on strides {{1,2,-1}}", nmax, STRIDES),
+        &format!("every p of length 1..={} over {{0,.1,.25,.5,1,2,NaN,-0.0,subnormal}} x f64/f32 (length 5: each p in one of the two types) with every q of the same length for n<=3 and 24 resp. 12 rotating q plus q=p above; every pair of normalised vectors with entries in eighths for n<=4; stride pairs rotating over {:?}; entropy on strides {{1,2,-1}}", nmax, STRIDES),
         cases.into_iter(),
         |c, lx| {
             lx.nontrivial(c.p.len() >= 2);
